@@ -6,7 +6,7 @@
    inside a transaction. *)
 From Coq Require Import ZArith List Bool.
 From Model Require Import PyBase Cache.
-From Proofs Require Import CacheProofs CacheWf CacheCopy CacheCoh CacheWorld CacheUnion CacheTheorems CacheUsable CacheExamples CacheTxn CacheFresh CacheFreshOps CacheFreshWorld.
+From Proofs Require Import CacheProofs CacheWf CacheCopy CacheCoh CacheWorld CacheUnion CacheTheorems CacheUsable CacheExamples CacheTxn CacheFresh CacheFreshOps CacheFreshWorld CacheFreshUnion CacheFreshSplit CacheInj CacheInjOps CacheInjWorld CacheFreshPatch CacheFreshFull.
 Import ListNotations.
 Open Scope Z_scope.
 
@@ -159,31 +159,65 @@ Theorem C13_union_example :
 Proof. exact union_example. Qed.
 Print Assumptions C13_union_example.
 
-(* ---- the STORED derived data: FW = W + for every live molecule and backup: each atom is pending (in _changed) or its stored
+(* ---- the STORED derived data: FWI = W + for every live molecule and backup: each atom is pending (in _changed) or its stored
    hydrogen count was computed from its current environment (with the charge / radical state it has now, or - inside a
-   transaction - had in the backup), and outside a transaction nothing is pending, every label and bond mark is current.
-   Contract fop_ok: setters only inside a transaction, no copy() of the intermediate state of an open transaction;
-   union and the patch step are not covered (hence _partial). *)
-Theorem C13_fresh_initial : FW empty_state.
-Proof. exact FW_empty. Qed.
+   transaction - had in the backup; atoms the backup does not know under their number are recalculated at commit), outside a
+   transaction nothing is pending and every label and bond mark is current; + distinct bonds are distinct objects.
+   Contract fop_full, for ALL operations (union in place and copying, split, the patch step included): setters only inside a
+   transaction; no copy(), split(), patch step or union partner taken from the intermediate state of an open transaction; a
+   union whose current molecule is inside a transaction is in place and brings in no atom under a number the backup still
+   knows - the one excluded situation is a real failure of the code: C13_fresh_union_reuse_refuted. *)
+Theorem C13_fresh_initial : FWI empty_state.
+Proof. exact FWI_empty. Qed.
 Print Assumptions C13_fresh_initial.
 
-Theorem C13_fresh_step_partial : forall s p, FW s -> op_ok s p -> fop_ok s p -> FW (fst (step s p)).
-Proof. exact step_FW. Qed.
-Print Assumptions C13_fresh_step_partial.
+Theorem C13_fresh_step : forall s p, FWI s -> op_ok s p -> fop_full s p -> FWI (fst (step s p)).
+Proof. exact step_FWI. Qed.
+Print Assumptions C13_fresh_step.
+
+(* distinct bonds are distinct objects, in every live molecule and backup, after every operation *)
+Theorem C13_bond_objects_distinct : forall s p, WI s -> W s -> op_ok s p -> WI (fst (step s p)).
+Proof. exact step_WI. Qed.
+Print Assumptions C13_bond_objects_distinct.
 
 (* the _changed bookkeeping (incl. the setter tracking at __exit__ and the marking by remap inside a block) is sufficient:
    outside a transaction, after every operation, each stored implicit-hydrogen count equals calc of the atom's current
    environment, each label equals labels of its current neighbourhood, every bond carries its ring mark, nothing is pending *)
-Theorem C13_stored_fresh_partial : forall (H L : Type) (calc : env -> H) (labels : lenv -> L) ops s, FW s -> fops_ok s ops ->
+Theorem C13_stored_fresh : forall (H L : Type) (calc : env -> H) (labels : lenv -> L) ops s, FWI s -> fops_full s ops ->
   forall o, In o (live (run ops s)) -> o_backup o = None ->
     o_changed o = None /\
     (forall r, In r (refs_of_adj (o_adj o)) -> exists c, hget (s_heap (run ops s)) r = Some c /\ b_lab c = true) /\
     forall n a, zget (o_atoms o) n = Some a ->
       exists l, lenv_of_row (s_heap (run ops s)) (o_atoms o) (row o n) = Ok l /\
                 stored_h H calc a = Some (calc (a_core a, l)) /\ stored_l L labels a = Some (labels l).
-Proof. exact stored_fresh. Qed.
-Print Assumptions C13_stored_fresh_partial.
+Proof. exact stored_fresh_full. Qed.
+Print Assumptions C13_stored_fresh.
+
+(* the excluded situation breaks the statement in the faithful model of the current code (known finding
+   txn-union-number-reuse-untracked, replayed on the real code by the search): every operation of the history is within the
+   contract except that the in-place union re-uses number 3, which the backup still knows; at the end atom 3 (N, charge 0)
+   keeps the hydrogen count computed for N+ *)
+Theorem C13_fresh_union_reuse_refuted :
+  ops_ok empty_state reuse_history /\ trace reuse_history empty_state = repeat None 14 /\
+  fops_full empty_state (firstn 10 reuse_history) /\
+  (let s := run (firstn 10 reuse_history) empty_state in
+   match s_others s with other :: _ => o_backup other = None | [] => False end /\
+   exists b, o_backup (s_cur s) = Some b /\ zget (bk_atoms b) 3 <> None /\ ~ In 3 (keys (o_atoms (s_cur s))) /\
+             In 3 (keys (o_atoms (s_cur (fst (union false false s)))))) /\
+  (let s := run reuse_history empty_state in
+   o_backup (s_cur s) = None /\ hyd_fresh (s_heap s) (s_cur s) 3 = false /\
+   option_map a_core (zget (o_atoms (s_cur s)) 3) = Some (mkCore 7 None 0 false) /\
+   option_map a_hyd (zget (o_atoms (s_cur s)) 3) = Some (Some (mkCore 7 None 1 false, []))).
+Proof. exact fresh_union_reuse_refuted. Qed.
+Print Assumptions C13_fresh_union_reuse_refuted.
+
+Theorem C13_fresh_full_example :
+  fops_full empty_state full_history /\ ops_ok empty_state full_history /\ trace full_history empty_state = repeat None 22 /\
+  (let s := run full_history empty_state in
+   forallb (fun o => forallb (fun n => hyd_fresh (s_heap s) o n && lab_fresh (s_heap s) o n) (keys (o_atoms o))) (live s) = true /\
+   (6 <= List.length (live s))%nat).
+Proof. exact full_example. Qed.
+Print Assumptions C13_fresh_full_example.
 
 Theorem C13_fresh_example :
   fops_ok empty_state fresh_history /\ trace fresh_history empty_state = repeat None 20 /\
